@@ -21,10 +21,19 @@ struct IdxA : Idx {
 #ifndef SNAP_MAX
 #define SNAP_MAX 256
 #endif
+#ifdef WITH_FRAME
+#include "verif_frame.hpp"
+#endif
 
 extern "C" __attribute__((noinline)) int u_pgm_e2e(const KEY *d, size_t n, const KEY *q, size_t *out) {
     try {
+#ifdef WITH_FRAME
+        VerifArenaScope arena;                      // real build: the index and all it allocates live in the arena
+        VERIF_FRAMED(IdxA, idx, d, d + n);
+        arena.stop();
+#else
         IdxA idx(d, d + n);
+#endif
 #ifdef WITH_FRAME
         unsigned char snap[SNAP_MAX]; size_t offs[16];
         size_t sb = idx.segsize(), nl = idx.levels_offsets.size();
@@ -38,13 +47,19 @@ extern "C" __attribute__((noinline)) int u_pgm_e2e(const KEY *d, size_t n, const
 #ifdef PGM_INDEX_VERIF
         pgm::pgm_verif_max_route_dev = 0;
 #endif
+#ifdef WITH_FRAME
+        verif_frame_begin(&idx, nullptr, nullptr, nullptr);
+#endif
         auto r = idx.search(*q);
+#ifdef WITH_FRAME
+        auto r2 = idx.search(*q);
+        verif_frame_end();
+#endif
         out[0] = r.pos; out[1] = r.lo; out[2] = r.hi; out[3] = idx.segments_count(); out[4] = idx.height();
 #ifdef PGM_INDEX_VERIF
         out[5] = pgm::pgm_verif_max_route_dev;
 #endif
 #ifdef WITH_FRAME
-        auto r2 = idx.search(*q);
         bool same = r2.pos == r.pos && r2.lo == r.lo && r2.hi == r.hi && idx.n == n0 && idx.first_key == fk0
                     && idx.segsize() == sb && idx.levels_offsets.size() == nl;
         {
